@@ -179,6 +179,7 @@ func (c *shardedMap) ExpireAll(ctx context.Context) {
 		b.Unlock()
 	}
 
+	c.t.expirationsAdded(cnt)
 	c.t.NotifyExpiredAll(ctx, start, cnt)
 }
 
@@ -297,6 +298,10 @@ func (c *ShardedMap) Restore(r io.Reader) (int, error) {
 		b.Lock()
 		b.data[h] = &e
 		b.Unlock()
+
+		if e.E != 0 {
+			c.t.expirationsAdded(1)
+		}
 
 		n++
 	}
